@@ -240,7 +240,8 @@ def build_ops(r, xs, u, kind, how=None, reject=0.0):
             if r.random() < reject:
                 ops += bad_pushes(r, xs[:i], n, u)
             if how == "push" or (how == "mixed" and r.random() < 0.5):
-                ops.append({"op": "push", "x": L(xs[i])})
+                # the next value of a monotone sequence <= u satisfies the precondition of push_unchecked
+                ops.append({"op": "push_unchecked" if r.random() < 0.3 else "push", "x": L(xs[i])})
                 i += 1
             else:
                 c = r.choice([1, 2, 3, 64, 100])
